@@ -111,6 +111,10 @@ fn sc_name(sc: Scanner) -> String {
     }
 }
 fn check_c16(si: usize, s: &[u8], offset: usize, pre: usize, chunk: usize, step: usize) -> Option<(String, String)> {
+    set_case_with(|c| {
+        use std::fmt::Write;
+        let _ = write!(c, "C16 the scanner terminates\x1fscanner {} on {:?} offset {} with {} bytes buffered\x1fc16\x1e{}\x1e{}\x1e{}\x1e{}\x1e{}\x1e{}", si, s, offset, pre, si, offset, pre, chunk, step, hex(s));
+    });
     let sc = SCANNERS[si];
     // pre == len + 1: everything buffered AND the end of the input already seen by an earlier look-ahead
     let (mut r, m) = reader_with(s, pre.min(s.len()), chunk, step);
@@ -188,6 +192,10 @@ macro_rules! scan_one {
 const FN_NAMES: [&str; 4] = ["ascii_digits", "ascii_digits_multi", "signed_ascii_digits", "signed_ascii_digits_multi"];
 const TYPES: [&str; 12] = ["i8", "u8", "i16", "u16", "i32", "u32", "i64", "u64", "i128", "u128", "isize", "usize"];
 fn check_c13(ty: usize, which: usize, s: &[u8], offset: usize, pre: usize, chunk: usize, step: usize) -> Option<(String, String)> {
+    set_case_with(|c| {
+        use std::fmt::Write;
+        let _ = write!(c, "C13 the scanner terminates\x1f{}::<{}> on {:?} offset {} with {} bytes buffered\x1fc13\x1e{}\x1e{}\x1e{}\x1e{}\x1e{}\x1e{}\x1e{}", FN_NAMES[which], TYPES[ty], s, offset, pre, ty, which, offset, pre, chunk, step, hex(s));
+    });
     let (mut r, m) = reader_with(s, pre, chunk, step);
     let d0 = m.delivered.get();
     macro_rules! go {
@@ -258,6 +266,7 @@ fn boundary_strings(thorough: bool) -> Vec<Vec<u8>> {
 pub fn suite(prop: &str, tier: &str, _seed: u64) -> Report {
     let mut rep = Report::new();
     let all = prop == "all";
+    start_watchdog(20);
     let mut fail = |rep: &mut Report, kind: &str, a: Vec<String>, s: &[u8], r: Option<(String, String)>| {
         if let Some((check, detail)) = r {
             let mut args = vec![kind.to_string()];
